@@ -29,6 +29,7 @@ const c37formJSON = `{
  "pages": {"1": {"content": {
    "textfield": [
      {"id": "t1", "value": "Jackie", "pos": [150, 700], "width": 120, "label": {"value": "T1:", "width": 60, "gap": 10, "pos": "left", "font": {"name": "$label"}}},
+     {"id": "tm", "maxlen": 5, "value": "abc", "pos": [150, 660], "width": 120, "label": {"value": "TM:", "width": 60, "gap": 10, "pos": "left", "font": {"name": "$label"}}},
      {"id": "ta", "multiline": true, "value": "line", "pos": [150, 600], "width": 120, "height": 50, "label": {"value": "TA:", "width": 60, "gap": 10, "pos": "left", "font": {"name": "$label"}}}
    ],
    "datefield": [{"id": "d1", "pos": [150, 560], "width": 80, "format": "d.m.yyyy", "value": "1.2.2003", "label": {"value": "D1:", "width": 60, "gap": 10, "pos": "left", "font": {"name": "$label"}}}],
@@ -183,14 +184,15 @@ func runC37(r *core.R) {
 		r.HarnessError("export initial form: %v", err)
 		return
 	}
-	if len(vals0) != 7 {
-		r.HarnessError("expected 7 fields, export lists %d: %v", len(vals0), vals0)
+	if len(vals0) != 8 {
+		r.HarnessError("expected 8 fields, export lists %d: %v", len(vals0), vals0)
 		return
 	}
 	long := strings.Repeat("abcdefghij", 30)
 	domain := map[string][]any{
 		"t1":  {"", "x", "ü(", long, "Jackie"},
 		"ta":  {"", "a\nb", "ü", "line"},
+		"tm":  {"", "abcde", "Küche", "üüüüü", "é", "abc"}, // MaxLen 5: every value has at most 5 characters, some more than 5 bytes
 		"d1":  {"31.12.1999", "1.2.2003"},
 		"c1":  {true, false},
 		"r1":  {"a", "b", "c"},
